@@ -1,6 +1,7 @@
 package node
 
 import (
+	"com.tuntun.rangers/node/src/zzverif/simsched"
 	"encoding/json"
 	"fmt"
 	"math/big"
@@ -62,6 +63,22 @@ type BlockSpec struct {
 // CastBlock makes the node (whose head is the intended parent) cast, finalise and
 // assemble a block exactly as proposer + group member do, without adding it.
 func (n *Node) CastBlock(spec BlockSpec) (*types.Block, error) {
+	if !simsched.Active() {
+		// with asynchronous casting the chain starts a goroutine that executes the block's transactions: run
+		// the cast as a scheduler task so that this goroutine is a task too and has ended when we return
+		var b *types.Block
+		var err error
+		res := simsched.Run(simsched.Options{Seed: 0xca57 ^ uint64(spec.PV)<<8 ^ spec.QN<<24 ^ uint64(spec.TimeMs)<<32, Policy: "random", MaxPreempt: -1, MaxSteps: 50000000},
+			[]string{"cast"}, []func(){func() { b, err = n.castBlock(spec) }})
+		if res.Panic != nil {
+			panic(fmt.Sprintf("CastBlock: %v", res.Panic))
+		}
+		return b, err
+	}
+	return n.castBlock(spec)
+}
+
+func (n *Node) castBlock(spec BlockSpec) (*types.Block, error) {
 	for _, tx := range spec.Txs {
 		if ok, err := n.Pool.AddTransaction(tx); !ok && err != nil {
 			// already pending/executed: fine for sibling blocks re-using a transaction
